@@ -8,7 +8,7 @@
 //!      `last`) against the component list;
 //!  (b) `first`, `first_result`, `last_result`, `single`, `some`, `consume` on every length;
 //!  (c) `StringExt::{size,to_bool,trim_suffix}` (str and String impls) on every string up to a
-//!      length bound over an alphabet with 1, 2 and 3 byte characters, plus every casing of "false"
+//!      length bound over an alphabet with 1, 2, 3 and 4 byte characters, plus every casing of "false"
 //!      with short affixes;
 //!  (d) `OptionExt::has` on every (option, value) pair of small domains;
 //!  (e) `take_while_p` on every sequence x predicate x way of driving the adaptor;
@@ -460,7 +460,7 @@ fn check_basic(src: Src, len: usize) -> Vec<Fail> {
 // =================================================================================================
 // (c) strings
 // =================================================================================================
-const SYMS: [&str; 7] = ["a", "F", "f", "0", "é", "€", " "];
+const SYMS: [&str; 8] = ["a", "F", "f", "0", "é", "€", "😀", " "];
 
 fn is_false_word(s: &str) -> bool {
     let want = ['f', 'a', 'l', 's', 'e'];
